@@ -901,6 +901,107 @@ Proj(v, s, d) ==
     [] v.t = "method" -> [t |-> "builtin"]
     [] OTHER -> [t |-> v.t]
 
+\* ================= static semantics: what the compiler rejects =================
+\* The compiler resolves every name while it compiles, in source order, against a chain of
+\* symbol tables: the root table (builtins and the hoisted top-level function names), one
+\* table per function (parameters, then the function's own name), and one table per block
+\* (function body, if/else/case body, loop header, loop body).  A program is rejected with a
+\* compile error - before anything runs - when
+\*   - a name is declared twice in the same table (:=, var, const, multi-declaration, loop
+\*     variables, parameters, named functions at the top level),
+\*   - a name that no table of the chain declares is read or assigned,
+\*   - a constant (const name, named function) is the target of =, op=, ++/--, or of a
+\*     multi-assignment,
+\*   - break/continue appear outside the loops of the current function, return/defer outside
+\*     of any function,
+\*   - a parameter default is not a literal, or a parameter without default follows one with.
+\* senv: sequence of tables, each a function  name -> BOOLEAN (is it a constant)
+\* ctx:  [loop: inside a loop of the current function, fn: inside a function]
+SLook(senv, n) ==
+  LET idxs == {i \in 1..Len(senv): n \in DOMAIN senv[i]}
+  IN IF idxs = {} THEN "none"
+     ELSE IF senv[CHOOSE i \in idxs: \A j \in idxs: j <= i][n] THEN "const" ELSE "var"
+SBad == [bad |-> TRUE, senv |-> <<>>]
+SOk(senv) == [bad |-> FALSE, senv |-> senv]
+SDecl(senv, n, c) == IF n \in DOMAIN senv[Len(senv)] THEN SBad
+                     ELSE SOk([senv EXCEPT ![Len(senv)] = (n :> c) @@ @])
+RECURSIVE SDeclAll(_,_,_)
+SDeclAll(senv, ns, c) == IF Len(ns) = 0 THEN SOk(senv)
+                         ELSE LET r == SDecl(senv, Head(ns), c) IN IF r.bad THEN r ELSE SDeclAll(r.senv, Tail(ns), c)
+RECURSIVE SE(_,_,_)
+RECURSIVE SSt(_,_,_)
+RECURSIVE SSeq(_,_,_)
+SEs(es, senv, ctx) == \E i \in 1..Len(es): SE(es[i], senv, ctx)
+SSeq(sts, senv, ctx) == IF Len(sts) = 0 THEN SOk(senv)
+                        ELSE LET r == SSt(Head(sts), senv, ctx) IN IF r.bad THEN r ELSE SSeq(Tail(sts), r.senv, ctx)
+SBlock(sts, senv, ctx) == SSeq(sts, Append(senv, <<>>), ctx).bad
+SFunc(e, senv) ==
+  LET ps == e.params
+      names == [i \in 1..Len(ps) |-> ps[i].n]
+      badDefaults == \/ \E i \in 1..Len(ps): ps[i].hasdef /\ ps[i].def.k \notin {"int", "str", "bool", "float", "nil"}
+                     \/ \E i, j \in 1..Len(ps): i < j /\ ps[i].hasdef /\ ~ps[j].hasdef
+      t1 == SDeclAll(Append(senv, <<>>), names, FALSE)
+      t2 == IF t1.bad \/ e.name = "" THEN t1 ELSE SDecl(t1.senv, e.name, TRUE)
+  IN badDefaults \/ t2.bad \/ SBlock(e.body, t2.senv, [loop |-> FALSE, fn |-> TRUE])
+SE(e, senv, ctx) ==
+  CASE e.k \in {"int", "float", "bool", "nil", "str", "nilnode"} -> FALSE
+    [] e.k = "tmpl" -> \E i \in 1..Len(e.parts): e.parts[i].k # "lit" /\ SE(e.parts[i].e, senv, ctx)
+    [] e.k = "id" -> SLook(senv, e.n) = "none"
+    [] e.k \in {"bin", "and", "or", "in", "idx"} -> SE(e.a, senv, ctx) \/ SE(e.b, senv, ctx)
+    [] e.k \in {"not", "neg", "attr"} -> SE(e.a, senv, ctx)
+    [] e.k = "tern" -> SE(e.c, senv, ctx) \/ SE(e.a, senv, ctx) \/ SE(e.b, senv, ctx)
+    [] e.k \in {"list", "set"} -> SEs(e.items, senv, ctx)
+    [] e.k = "map" -> SEs(e.keys, senv, ctx) \/ SEs(e.vals, senv, ctx)
+    [] e.k = "slice" -> SE(e.a, senv, ctx) \/ (e.haslo /\ SE(e.lo, senv, ctx)) \/ (e.hashi /\ SE(e.hi, senv, ctx))
+    [] e.k = "call" -> SE(e.f, senv, ctx) \/ SEs(e.args, senv, ctx)
+    [] e.k = "pipe" -> SEs(e.stages, senv, ctx)
+    [] e.k = "func" -> SFunc(e, senv)
+    [] e.k = "if" -> SE(e.c, senv, ctx) \/ SBlock(e.t, senv, ctx) \/ (e.haselse /\ SBlock(e.e, senv, ctx))
+    [] e.k = "switch" -> SE(e.subj, senv, ctx) \/
+          \E i \in 1..Len(e.cases): (~e.cases[i].isdefault /\ SEs(e.cases[i].exprs, senv, ctx)) \/ SBlock(e.cases[i].body, senv, ctx)
+    [] OTHER -> FALSE
+SSt(st, senv, ctx) ==
+  CASE st.k \in {"var", "const"} -> IF SE(st.e, senv, ctx) THEN SBad ELSE SDecl(senv, st.n, st.k = "const")
+    [] st.k = "multivar" ->
+          IF SE(st.e, senv, ctx) THEN SBad
+          ELSE IF st.decl THEN SDeclAll(senv, st.ns, FALSE)
+          ELSE IF \E i \in 1..Len(st.ns): SLook(senv, st.ns[i]) # "var" THEN SBad ELSE SOk(senv)
+    [] st.k = "assign" -> IF SLook(senv, st.n) # "var" \/ SE(st.e, senv, ctx) THEN SBad ELSE SOk(senv)
+    [] st.k = "setidx" -> IF SE(st.e, senv, ctx) \/ SE(st.a, senv, ctx) \/ SE(st.i, senv, ctx) THEN SBad ELSE SOk(senv)
+    [] st.k = "setattr" -> IF SE(st.e, senv, ctx) \/ SE(st.a, senv, ctx) THEN SBad ELSE SOk(senv)
+    [] st.k = "postfix" -> IF SLook(senv, st.n) # "var" THEN SBad ELSE SOk(senv)
+    [] st.k = "expr" -> IF SE(st.e, senv, ctx) THEN SBad ELSE SOk(senv)
+    [] st.k = "funcdecl" ->
+          IF SFunc(st.f, senv) THEN SBad
+          \* a top-level function's name was entered before compilation started; elsewhere the name is
+          \* entered into the current table as a constant, or an entry of that table is reused as it is
+          ELSE IF st.hoisted \/ st.f.name \in DOMAIN senv[Len(senv)] THEN SOk(senv)
+          ELSE SDecl(senv, st.f.name, TRUE)
+    [] st.k \in {"break", "continue"} -> IF ctx.loop THEN SOk(senv) ELSE SBad
+    [] st.k = "return" -> IF ~ctx.fn \/ (st.has /\ SE(st.e, senv, ctx)) THEN SBad ELSE SOk(senv)
+    [] st.k = "defer" -> IF ~ctx.fn \/ SE(st.e, senv, ctx) THEN SBad ELSE SOk(senv)
+    [] st.k = "for" ->
+          LET r0 == IF Len(st.init) = 0 THEN SOk(Append(senv, <<>>)) ELSE SSt(st.init[1], Append(senv, <<>>), ctx)
+              inner == [ctx EXCEPT !.loop = TRUE] IN
+          IF r0.bad THEN SBad
+          ELSE IF st.hascond /\ SE(st.cond, r0.senv, inner) THEN SBad
+          ELSE IF Len(st.post) > 0 /\ SSt(st.post[1], r0.senv, inner).bad THEN SBad
+          ELSE IF SBlock(st.body, r0.senv, inner) THEN SBad ELSE SOk(senv)
+    [] st.k = "range" ->
+          IF SE(st.c, senv, ctx) THEN SBad
+          ELSE LET r0 == SDeclAll(Append(senv, <<>>), st.vars, FALSE) IN
+               IF r0.bad \/ SBlock(st.body, r0.senv, [ctx EXCEPT !.loop = TRUE]) THEN SBad ELSE SOk(senv)
+    [] OTHER -> SOk(senv)
+
+\* the root table: the builtins (ordinary variables: they can be assigned) and the hoisted function names
+StaticBad(c) ==
+  LET hs == c.hoist
+      dupl == \E i, j \in 1..Len(hs): i < j /\ hs[i] = hs[j]
+      clash == \E i \in 1..Len(hs): hs[i] \in Builtins
+      hset == {hs[i]: i \in 1..Len(hs)}
+      root == [n \in Builtins \cup hset |-> n \in hset]
+  IN dupl \/ clash \/ SSeq(c.ast, <<root>>, [loop |-> FALSE, fn |-> FALSE]).bad
+
 S0 == [store |-> <<>>, heap |-> <<>>, out |-> <<>>, nfn |-> 0, depth |-> 0, dstack |-> <<>>]
 \* hoist: top-level named functions get a cell before execution
 RECURSIVE Hoist(_,_,_)
@@ -913,9 +1014,10 @@ Outcome(r) ==
   ELSE IF r.k = "raise" THEN [k |-> "raise", v |-> r.v.kind, msg |-> r.v.msg, out |-> r.s.out]
   ELSE [k |-> "unknown"]   \* a stray break/continue/return is a compile error: generators do not produce it
 
-RunProgram(c) == LET h == Hoist(c.hoist, <<<<>>>>, S0)
-                     r == ExecSeq(c.ast, h.env, h.s, VNil)
-                 IN Outcome(r)
+RunProgram(c) == IF StaticBad(c) THEN [k |-> "raise", v |-> "compile error", msg |-> <<>>, out |-> <<>>]
+                 ELSE LET h == Hoist(c.hoist, <<<<>>>>, S0)
+                          r == ExecSeq(c.ast, h.env, h.s, VNil)
+                      IN Outcome(r)
 
 \* REPL-style evaluation (C18): pieces share environment and state; the value of
 \* the run is the value of the last piece; a piece that raises keeps its effects.
